@@ -229,6 +229,18 @@ Theorem cow_nodes_untouched : forall xs x w' o k bk,
 Proof. exact cow_nodes_untouched_proof. Qed.
 Print Assumptions cow_nodes_untouched.
 
+(* The sharing discipline behind it: in every reachable world, every node a tree k reaches was
+   created by k itself or by an OLDER tree that is frozen - a mutable tree never shares the nodes it
+   owns (and may write in place) with any other tree. *)
+Theorem sharing_discipline : forall xs k bk,
+  let w := execs (mkSW [] []) xs in
+  nth_error (sw_trees w) k = Some bk ->
+  exists fp tr, rep (sw_store w) (sb_root bk) tr fp /\
+    forall y, In y fp -> exists n, nth_error (sw_store w) y = Some n /\
+      (s_cr n = k \/ ((s_cr n < k)%nat /\ exists bo, nth_error (sw_trees w) (s_cr n) = Some bo /\ sb_immut bo = true)).
+Proof. exact sharing_discipline_proof. Qed.
+Print Assumptions sharing_discipline.
+
 (* ... and the value-level operation of `cow_isolated` changes nothing but its target tree *)
 Theorem vexec_other : forall ts x k,
   target x <> Some k -> (k < length ts)%nat -> nth_error (fst (vexec ts x)) k = nth_error ts k.
